@@ -3,7 +3,7 @@ R-COUPLED-IMPORT-ORDER, R-REORG-INV, R-LOCALS-OWNER, R-ADDLOCAL, R-SWAP (name-al
 import os
 import re
 
-from vlib.facts import walk, peel, place_path, CheckError, REPO, lit_int, uncond_before, every_iteration, path_to, binding_site
+from vlib.facts import pat_variants, walk, peel, place_path, CheckError, REPO, lit_int, uncond_before, every_iteration, path_to, binding_site
 from vlib.paths import paths, normal_paths
 from vlib.report import RuleResult
 from rules.nopanic import snippet
@@ -238,6 +238,36 @@ def idspace(F):
                                     if inner.get("k") == "Tuple" and inner["pats"] and inner["pats"][0].get("k") == "Binding":
                                         enum_idx[inner["pats"][0]["hid"]] = coll
                             break
+        # positions taken from a range `a..X.len()` (for loop or iterator closure): the variable is a position in X
+        for rg in walk(fn["body"]):
+            if rg.get("k") == "Struct" and (rg.get("adt") or "").endswith("ops::Range") and isinstance(rg.get("fields"), list):
+                end = dict((f_[0], f_[1]) for f_ in rg["fields"]).get("end")
+                e_ = peel(end) if isinstance(end, dict) else {}
+                while e_.get("k") == "Cast":
+                    e_ = peel(e_["a"])
+                if not (e_.get("k") == "MethodCall" and e_["method"] == "len"):
+                    continue
+                pp = place_path(e_["recv"]) or ""
+                coll_ = pp.split(".")[-1]
+                if not coll_:
+                    continue
+                # who binds the elements of this range?
+                for x in walk(fn["body"]):
+                    binders = []
+                    if x.get("k") == "MethodCall" and x.get("args") and any(y is rg for y in walk(x["recv"])):
+                        for a_ in x["args"]:
+                            if a_.get("k") == "Closure" and len(a_["params"]) == 1 and a_["params"][0].get("k") == "Binding":
+                                binders.append(a_["params"][0]["hid"])
+                    if x.get("k") == "Match" and x.get("src") == "ForLoopDesugar" and any(y is rg for y in walk(x["scrut"])):
+                        for lp in walk(x["arms"][0]["body"]):
+                            if lp.get("k") == "Match" and lp is not x:
+                                for arm in lp["arms"]:
+                                    p_ = arm["pat"]
+                                    if p_.get("variant") == "Some" and p_.get("pats") and p_["pats"][0].get("k") == "Binding":
+                                        binders.append(p_["pats"][0]["hid"])
+                                break
+                    for h_ in binders:
+                        enum_idx.setdefault(h_, coll_)
         for n in walk(fn["body"]):
             if n.get("k") != "Call":
                 continue
@@ -259,8 +289,10 @@ def idspace(F):
                         bad = "payload (.0) of %s" % B.split("::")[-1]
                 if x.get("k") == "Path" and x.get("res", {}).get("hid") in enum_idx:
                     coll = enum_idx[x["res"]["hid"]]
-                    want = COLLECTION_INDEX[coll]
-                    if A.split("::")[-1] != want:
+                    want = COLLECTION_INDEX.get(coll)
+                    if want is None:
+                        bad = "position in `%s` (positions in that vector are not ids of any index space)" % coll
+                    elif A.split("::")[-1] != want:
                         bad = "enumerate() index of `%s` (a %s-indexed collection)" % (coll, want)
             snip = snippet(_repo(), fn["file"], n["sp"])
             key = "%s | %s" % (fn["path"], snip)
@@ -303,7 +335,7 @@ def idspace(F):
                 sides = [n["a"], n["b"]]
                 for i in (0, 1):
                     idx = peel(sides[i])
-                    if idx.get("k") == "Path" and idx.get("res", {}).get("hid") in enum_idx:
+                    if idx.get("k") == "Path" and idx.get("res", {}).get("hid") in enum_idx and enum_idx[idx["res"]["hid"]] in COLLECTION_INDEX:
                         coll = enum_idx[idx["res"]["hid"]]
                         want = COLLECTION_INDEX[coll]
                         for x in walk(sides[1 - i]):
@@ -1319,5 +1351,31 @@ def kind_mix(F):
             if not ok:
                 r.violate("%s | mixes %s" % (fn["path"], "+".join(sorted(f.values()))), F.loc(fn, judged),
                           "one expression combines bookkeeping of different kinds (%s): the count/offset it computes belongs to neither index space" % ", ".join("%s (%s)" % (v, k) for k, v in sorted(f.items())))
+    # an arm that handles exactly one kind (TypeRef::Memory, ExternalKind::Func …) touches that kind's counters only
+    VK = {"Func": "func", "Function": "func", "Global": "global", "Memory": "memory", "Table": "table", "Tag": "tag"}
+    for fn in F.fns:
+        if fn.get("body") is None:
+            continue
+        for m in walk(fn["body"]):
+            if m.get("k") != "Match" or not any(t in (m.get("scrut_ty") or "") for t in ("TypeRef", "ExternalKind")):
+                continue
+            for arm in m["arms"]:
+                vs = {v for _a, v in pat_variants(arm["pat"])[0] if v}
+                if len(vs) != 1 or next(iter(vs)) not in VK:
+                    continue
+                own = VK[next(iter(vs))]
+                counters = {}
+                for x in walk(arm["body"]):
+                    if x.get("k") == "Field" and x["name"] in FAMILY and x["name"].startswith("num_"):
+                        counters.setdefault(FAMILY[x["name"]], x["name"])
+                if not counters:
+                    continue
+                n += 1
+                foreign = {k_: v_ for k_, v_ in counters.items() if k_ != own}
+                ok = not foreign
+                r.ob(ok, {"fn": fn["path"], "arm": next(iter(vs)), "counters": sorted(counters.values())})
+                if not ok:
+                    r.violate("%s | %s arm uses %s" % (fn["path"], next(iter(vs)), "+".join(sorted(foreign.values()))), F.loc(fn, arm),
+                              "the arm for %s reads or updates the bookkeeping of another kind (%s): the counters of the two kinds drift apart" % (next(iter(vs)), ", ".join(sorted(foreign.values()))))
     r.count("kind_expressions", n)
     return r
